@@ -1,0 +1,27 @@
+//! Verification accessor (compiled only with `--cfg vbxq_aelys_lang_verif`); read-only.
+use super::heap::ManualHeap;
+
+impl ManualHeap {
+    /// Heap indices of the pointer values held in live (not freed) buffers, read from the
+    /// allocation table itself (independent of what the collector enumerates).
+    pub fn verif_live_ptrs(&self) -> Vec<usize> {
+        let mut out = Vec::new();
+        for a in &self.allocations {
+            if !a.freed {
+                for v in &a.data {
+                    if let Some(p) = v.as_ptr() {
+                        out.push(p);
+                    }
+                }
+            }
+        }
+        out.sort();
+        out
+    }
+    /// (live buffers, freed buffers that still hold a pointer value)
+    pub fn verif_buffer_counts(&self) -> (usize, usize) {
+        let live = self.allocations.iter().filter(|a| !a.freed).count();
+        let dirty = self.allocations.iter().filter(|a| a.freed && a.data.iter().any(|v| v.as_ptr().is_some())).count();
+        (live, dirty)
+    }
+}
